@@ -343,13 +343,18 @@ def probes_for(e, seeds, kvals):
     """list of cases for one registry entry"""
     cases, seen = [], set()
 
+    nvar = max(1, len(e.variants))
+
     def emit(kind, shapes, seed):
-        key = (tuple(sorted((a, s) for a, s in shapes.items())), seed)
-        if key in seen:
-            return
-        seen.add(key)
-        cases.append({"kind": kind, "callable": e.public, "shapes": {a: (list(s) if isinstance(s, tuple) else s)
-                                                                        for a, s in shapes.items()}, "seed": seed})
+        # documented forms are exercised under EVERY flag combination (variant); wrong shapes under the default one
+        for vi in (range(nvar) if kind in ("valid", "noarray") else [0]):
+            key = (tuple(sorted((a, s) for a, s in shapes.items())), seed, vi)
+            if key in seen:
+                continue
+            seen.add(key)
+            cases.append({"kind": kind if vi == 0 else kind + "_flags", "callable": e.public,
+                          "shapes": {a: (list(s) if isinstance(s, tuple) else s) for a, s in shapes.items()},
+                          "seed": seed, "variant": vi})
 
     for seed in seeds:
         b0 = recv_b0(e, seed)
@@ -372,9 +377,11 @@ def probes_for(e, seeds, kvals):
                 form = e.forms[-1]
                 base = instantiate({a: tuple(("k" if isinstance(d, str) else d) for d in s) if isinstance(s, tuple) else s
                                     for a, s in form.items()}, kv, b0)
-                c = {"kind": "stack_empty" if kv == 0 else "stack", "callable": e.public,
-                     "shapes": {a: (list(s) if isinstance(s, tuple) else s) for a, s in base.items()}, "seed": seed, "stack": True}
-                cases.append(c)
+                for vi in range(nvar):
+                    c = {"kind": ("stack_empty" if kv == 0 else "stack") + ("" if vi == 0 else "_flags"), "callable": e.public,
+                         "shapes": {a: (list(s) if isinstance(s, tuple) else s) for a, s in base.items()}, "seed": seed,
+                         "stack": True, "variant": vi}
+                    cases.append(c)
     return cases
 
 
@@ -417,9 +424,11 @@ def build_args(e, shapes, rng, recv):
     return args
 
 
-def do_call(e, recv, args):
+def do_call(e, recv, args, variant=0):
     kw = dict(args)
     kw.update(e.kwargs)
+    if e.variants:
+        kw.update(e.variants[variant])
     if e.call is not None:
         return e.call(recv, kw)
     mod, _, name = e.qual.rpartition(".")
@@ -492,8 +501,11 @@ def run_impl(c):
     before_args = snap(args)
     before_recv = snap(recv)
     obs = {}
+    vi = c.get("variant", 0)
+    if e.variants:
+        obs["flags"] = {k: (list(v) if isinstance(v, tuple) else v) for k, v in e.variants[vi].items()}
     try:
-        r1 = do_call(e, recv, args)
+        r1 = do_call(e, recv, args, vi)
         obs["outcome"] = "ok"
     except Exception as ex:  # noqa
         r1 = None
@@ -504,17 +516,43 @@ def run_impl(c):
     obs["args_unchanged"] = snap(args) == before_args
     obs["recv_unchanged"] = True if e.mutator else (snap(recv) == before_recv)
     # determinism: the same call again (fresh, identically built inputs for the state-changing builders)
+    # state carried between calls: the same call again ON THE SAME OBJECT, then the other flag combinations on the
+    # same object, then the first call once more -- every answer is compared with a FRESH object's answer
     if obs["outcome"] == "ok":
         try:
-            if e.mutator or e.public in ("tri.sample",):
-                recv2, args2 = setup()
-                r2 = do_call(e, recv2, args2)
+            s1 = snap(r1)
+            recv2, args2 = setup()
+            fresh = snap(do_call(e, recv2, args2, vi))
+            if e.mutator:
+                obs["deterministic"] = s1 == fresh
             else:
-                r2 = do_call(e, recv, args)
-            obs["deterministic"] = snap(r1) == snap(r2)
+                r2 = do_call(e, recv, args, vi)
+                ok = (s1 == snap(r2) == fresh)
+                why = None if ok else "the second identical call on the same object differs from the first / from a fresh object"
+                if ok and e.recv is not None and e.variants:
+                    for vj in range(len(e.variants)):
+                        if vj == vi:
+                            continue
+                        rf, af = setup()
+                        try:
+                            want = snap(do_call(e, rf, af, vj))
+                        except Exception:  # noqa
+                            continue
+                        got = snap(do_call(e, recv, args, vj))
+                        if got != want:
+                            ok, why = False, ("after the call with flags %r, the call with flags %r on the same object differs "
+                                              "from a fresh object's answer" % (e.variants[vi], e.variants[vj]))
+                            break
+                    if ok and snap(do_call(e, recv, args, vi)) != fresh:
+                        ok, why = False, "after calls with other flags the original call on the same object gives a different answer"
+                    if snap(recv) != before_recv:
+                        obs["recv_unchanged"] = False
+                obs["deterministic"] = ok
+                if why:
+                    obs["msg"] = why
         except Exception as ex:  # noqa
             obs["deterministic"] = False
-            obs["msg"] = "second call raised %s" % exn_name(ex)
+            obs["msg"] = "repeated call raised %s: %s" % (exn_name(ex), str(ex)[:100])
     # stacked = row by row
     if c.get("stack") and obs["outcome"] == "ok":
         st = e.stack
@@ -544,7 +582,7 @@ def run_impl(c):
                                 ai[a] = np.array(v[i:i + 1])
                         else:
                             ai[a] = v
-                    ri = do_call(e, recv, ai)
+                    ri = do_call(e, recv, ai, vi)
                     if not st["single"]:
                         ri = row_of(ri, 0)
                     if not same(row_of(r1, i), ri, st.get("rtol", False)):
